@@ -8,8 +8,9 @@ from ..modes import Mode
 
 ID = "C08"
 RULE = ("one run = one swarm-generated grammar with finite total weights (Boolean, MaxTimes, MaxPlus, Poly on "
-        "non-recursive shapes, convergent Float / Real / Log) under 3-6 schedules (rule permutation, duplicate "
-        "split/merge, renaming, insertion order of V, ChaosSet-driven SCC/bucket order); agenda(), treesum(), "
+        "non-recursive shapes, convergent Float / Real / Log / Expectation) under 3-6 schedules (rule permutation, duplicate "
+        "split/merge, renaming, insertion order of V, ChaosSet-driven SCC/bucket order, an optional coarse "
+        "warm-up query on the shared grammar object); agenda(), treesum(), "
         "naive_bottom_up() per nonterminal and expected_length compared with Kleene iteration from zero of the "
         "raw polynomial system; Z >= sum of string weights up to length 3; non-trivial = start symbol has "
         "non-zero total; distinct = distinct (grammar, schedule) digests")
